@@ -556,6 +556,7 @@ const firstL = 64
 
 func TestCheck(t *testing.T) {
 	bubble.Quiet()
+	installErrorLog()
 	bubble.RegisterBlocks()
 	r := report.Start(t, "C11")
 	defer r.Finish()
@@ -759,87 +760,6 @@ func TestCheck(t *testing.T) {
 		}
 	})
 
-	// (3) real Clients over TCP and WebSocket, four senders per direction on one session (real time, event-count oracle)
-	r.Group("sock", r.Pick(4, 32), func(i int, rng *report.Rand) {
-		proto := []string{"tcp", "ws"}[i%2]
-		const mib = 1 << 20
-		// encoded lengths per concurrent sender (negative: random small length below that bound) ...
-		sizes := [][]int{
-			{mib, -3000, 2 * mib},
-			{mib - 1, -200, mib},
-			{mib + 1, -3000, -70000},
-			{-500, 2 * mib, -100},
-		}
-		// ... and of the bundles sent one after the other afterwards
-		tail := []int{mib, -1000}
-		pool := []int{mib, 2 * mib, 3 * mib, mib - 1, mib + 1, 2*mib - 1, 2*mib + 1, -100, -3000, -70000, mib / 2, 65536}
-		if raceEnabled {
-			// Under the race detector parsing 1 MiB takes about a second of CPU; the receiving TransferManager parses
-			// inside its message loop and acknowledges nothing meanwhile, so on a loaded machine concurrent large
-			// bundles run into the sender's real-time 10 s acknowledgement timeout (an error return, then a lost
-			// session). The concurrent phase therefore uses bundles up to 70 kB, the bundles of exactly / about
-			// 1 MiB follow one at a time.
-			sizes = [][]int{
-				{-3000, -70000, -200},
-				{-500, 65536, -100},
-				{-3000, -70000, -30000},
-				{-100, -10000, -500},
-			}
-			tail = []int{mib, mib - 1 + 2*(i/2%2)}
-			pool = []int{-100, -3000, -70000, -500, 65536, -200, -1000, -30000, 32768, -5000}
-		}
-		if i >= 4 { // thorough: further mixes
-			for s := range sizes {
-				for k := range sizes[s] {
-					sizes[s][k] = pool[rng.Intn(len(pool))]
-				}
-			}
-			if !raceEnabled {
-				sizes[rng.Intn(4)][rng.Intn(3)] = mib
-			}
-			tail[1] = []int{mib - 1, mib + 1, 2 * mib, -3000}[rng.Intn(4)]
-			if raceEnabled && tail[1] == 2*mib {
-				tail[1] = mib + 1
-			}
-		}
-		why := ""
-		for attempt := 0; attempt < 3; attempt++ {
-			ok, w := runSock(r, proto, i, attempt, rng.Fork(), sizes, tail)
-			if ok {
-				r.Count("sock.sessions_judged", 1)
-				r.Count("sock."+proto+".sessions_judged", 1)
-				if i < 2 {
-					r.Sample(map[string]interface{}{"kind": "real Clients over " + proto + ", 4 senders per direction on one session, then a marker bundle per direction",
-						"encoded_lengths_per_concurrent_sender (negative: random small up to)": sizes, "then_one_at_a_time": tail})
-				}
-				return
-			}
-			why = w
-			r.Count("sock.attempts_without_verdict", 1)
-			r.Note(fmt.Sprintf("sock/%d attempt %d gave no verdict: %s", i, attempt, w))
-		}
-		// three attempts without reaching the barrier: the check as a whole is inconclusive (driver: exit 2)
-		t.Errorf("INCONCLUSIVE sock/%d (%s): %s", i, proto, why)
-	})
-
-	// (3b) Send on a Client whose session was lost
-	r.Group("lost", r.Pick(4, 16), func(i int, rng *report.Rand) {
-		proto := []string{"tcp", "ws"}[i%2]
-		afterClose := i/2%2 == 0
-		why := ""
-		for attempt := 0; attempt < 3; attempt++ {
-			ok, w := runLost(r, proto, afterClose, i, attempt, rng.Fork())
-			if ok {
-				r.Count("lost.sessions_judged", 1)
-				return
-			}
-			why = w
-			r.Count("lost.attempts_without_verdict", 1)
-			r.Note(fmt.Sprintf("lost/%d attempt %d gave no verdict: %s", i, attempt, w))
-		}
-		t.Errorf("INCONCLUSIVE lost/%d (%s): %s", i, proto, why)
-	})
-
 	// (2) scripted hostile peer behind the real session stack on a net.Pipe: every fault position k
 	r.Group("hostile", r.Pick(48, 480), func(i int, rng *report.Rand) {
 		anyAborted := false
@@ -903,5 +823,95 @@ func TestCheck(t *testing.T) {
 				r.Violation("c11.bubble:"+errClass(err), "workload hostile: "+err.Error(), i)
 			}
 		}
+	})
+
+	// (3) real Clients over TCP and WebSocket, four senders per direction on one session (real time, event-count oracle)
+	r.Group("sock", r.Pick(4, 24), func(i int, rng *report.Rand) {
+		proto := []string{"tcp", "ws"}[i%2]
+		const mib = 1 << 20
+		// encoded lengths per concurrent sender (negative: random small length below that bound) ...
+		sizes := [][]int{
+			{mib, -3000, 2 * mib},
+			{mib - 1, -200, mib},
+			{mib + 1, -3000, -70000},
+			{-500, 2 * mib, -100},
+		}
+		// ... and of the bundles sent one after the other afterwards
+		tail := []int{mib, -1000}
+		pool := []int{mib, 2 * mib, 3 * mib, mib - 1, mib + 1, 2*mib - 1, 2*mib + 1, -100, -3000, -70000, mib / 2, 65536}
+		if raceEnabled {
+			// Under the race detector parsing 1 MiB takes about a second of CPU; the receiving TransferManager parses
+			// inside its message loop and acknowledges nothing meanwhile, so on a loaded machine concurrent large
+			// bundles run into the sender's real-time 10 s acknowledgement timeout (an error return, then a lost
+			// session). The concurrent phase therefore uses bundles up to 70 kB, the bundles of exactly / about
+			// 1 MiB follow one at a time.
+			sizes = [][]int{
+				{-3000, -70000, -200},
+				{-500, 65536, -100},
+				{-3000, -70000, -30000},
+				{-100, -10000, -500},
+			}
+			tail = []int{mib, -2000}
+			pool = []int{-100, -3000, -70000, -500, 65536, -200, -1000, -30000, 32768, -5000}
+		}
+		if i >= 4 { // thorough: further mixes
+			for s := range sizes {
+				for k := range sizes[s] {
+					sizes[s][k] = pool[rng.Intn(len(pool))]
+				}
+			}
+			if !raceEnabled {
+				sizes[rng.Intn(4)][rng.Intn(3)] = mib
+			}
+			if !raceEnabled {
+				tail[1] = []int{mib - 1, mib + 1, 2 * mib, -3000}[rng.Intn(4)]
+			} else if i%3 == 0 {
+				tail[0] = mib - 1 + 2*(i/3%2) // contrast: 1 MiB-1 / 1 MiB+1 instead of exactly 1 MiB
+			}
+		}
+		slots, attempts := 6, 3
+		if raceEnabled {
+			slots, attempts = 3, 4
+		}
+		release := acquireSlot(slots)
+		defer release()
+		why := ""
+		for attempt := 0; attempt < attempts; attempt++ {
+			repoErrors.reset()
+			ok, w := runSock(r, proto, i, attempt, rng.Fork(), sizes, tail)
+			if ok {
+				r.Count("sock.sessions_judged", 1)
+				r.Count("sock."+proto+".sessions_judged", 1)
+				if i < 2 {
+					r.Sample(map[string]interface{}{"kind": "real Clients over " + proto + ", 4 senders per direction on one session, then a marker bundle per direction",
+						"encoded_lengths_per_concurrent_sender (negative: random small up to)": sizes, "then_one_at_a_time": tail})
+				}
+				return
+			}
+			why = w
+			r.Count("sock.attempts_without_verdict", 1)
+			r.Note(fmt.Sprintf("sock/%d attempt %d gave no verdict: %s [repository log: %s]", i, attempt, w, repoErrors))
+		}
+		// no attempt reached the barrier: the check as a whole is inconclusive (driver: exit 2)
+		t.Errorf("INCONCLUSIVE sock/%d (%s): %s", i, proto, why)
+	})
+
+	// (3b) Send on a Client whose session was lost
+	r.Group("lost", r.Pick(4, 16), func(i int, rng *report.Rand) {
+		proto := []string{"tcp", "ws"}[i%2]
+		afterClose := i/2%2 == 0
+		why := ""
+		for attempt := 0; attempt < 3; attempt++ {
+			repoErrors.reset()
+			ok, w := runLost(r, proto, afterClose, i, attempt, rng.Fork())
+			if ok {
+				r.Count("lost.sessions_judged", 1)
+				return
+			}
+			why = w
+			r.Count("lost.attempts_without_verdict", 1)
+			r.Note(fmt.Sprintf("lost/%d attempt %d gave no verdict: %s [repository log: %s]", i, attempt, w, repoErrors))
+		}
+		t.Errorf("INCONCLUSIVE lost/%d (%s): %s", i, proto, why)
 	})
 }
